@@ -260,7 +260,7 @@ def decide(name, h, opts):
     """All solver work for one harness instance. Returns a result dict."""
     unwind = opts.get("unwind") or h.get("unwind") or 8
     timeout = opts.get("timeout", 900)
-    mem = opts.get("mem_gb", 14)
+    mem = float(opts.get("mem_gb", 14))
     res = {"instance": name, "unwind": unwind, "stubs": h["stubs"], "queries": 0, "solver_s": 0.0}
     try:
         goto = h.get("goto") or link(h)
@@ -435,8 +435,31 @@ def run_instances(items, workdir, jobs):
     if missing:
         raise RuntimeError("harness instances not found after codegen: %s" % missing)
     results = {}
+    # memory-aware scheduling: an instance only starts when its declared limit fits the budget
+    import threading
+    budget = float(os.environ.get("VERIF_MEM_GB", "56"))
+    cond = threading.Condition()
+    state = {"avail": budget}
+
+    def guarded(n, h, o):
+        lim = float(o.get("mem_gb", 14))
+        # instances with the default limit typically use 1-3 GB: weigh them 4; heavy ones weigh their limit
+        need = min(float(o.get("sched_gb", 4 if lim <= 14 else lim)), budget)
+        with cond:
+            while state["avail"] < need:
+                cond.wait()
+            state["avail"] -= need
+        try:
+            return decide(n, h, o)
+        finally:
+            with cond:
+                state["avail"] += need
+                cond.notify_all()
+
+    # heavy instances first so that they do not end up queued behind everything else
+    order = sorted(items, key=lambda it: -float(it[1].get("mem_gb", 14)))
     with cf.ThreadPoolExecutor(max_workers=jobs) as ex:
-        futs = {ex.submit(decide, n, dict(hs[n]), o): n for n, o in items}
+        futs = {ex.submit(guarded, n, dict(hs[n]), o): n for n, o in order}
         for f in cf.as_completed(futs):
             n = futs[f]
             try:
